@@ -229,7 +229,7 @@ def replay_paths(model, ob):
     if line.startswith('BOUNDED-RESULT '):
       r = json.loads(line[len('BOUNDED-RESULT '):])
       for f in r['failures']:
-        if f['id'] in want:
+        if f['id'] in want and not ('tagged' in ob.label and ';' not in str(f.get('metric', ';'))):
           return {'native_confirms': True, 'input': f, 'searched': r['evaluations']}
       return {'native_confirms': False, 'searched': r['evaluations']}
   return {'replay_error': (err or out)[-600:]}
